@@ -34,7 +34,7 @@ def emit(prop, seed, lo, hi, twice):
         for rep in range(2 if twice else 1):
             rng = engine.case_rng(seed, mod.ID, index)
             try:
-                case = mod.generate(rng, "quick")
+                case = (mod.generate_indexed(seed, index, "quick", rng) if hasattr(mod, "generate_indexed") else mod.generate(rng, "quick"))
             except engine.Discard as d:
                 lines.append(f"gen-discard:{d.reason}")
                 continue
